@@ -5,6 +5,7 @@
 //       enum   = ask for the vocabulary strings (Config::enumerate_vocab)
 //       build  = load with config.write_mmap (ARPA -> binary conversion while loading)
 //       method = util::LoadMethod for binary files (0 LAZY, 1 POPULATE_OR_LAZY, 2 POPULATE_OR_READ, 3 READ)
+//       pipe   = feed the file through a pipe and open /dev/stdin (FilePiece's read() path instead of mmap)
 //       ngrams=<path> = after a successful load also score these n-grams (one per line, words separated by blanks)
 //   stdout, one line per case:
 //       OK bound=<n> order=<k> queries=<q> hash=<h> enum=<words seen>
@@ -162,9 +163,36 @@ static std::string Head(const char *what) {
   return s;
 }
 
+// "pipe": the file reaches the loader through a pipe on fd 0 and is opened as /dev/stdin, so FilePiece cannot mmap it and
+// takes its read() path (ReadShift), as for `zcat model.arpa.gz | ...`.  A feeder process writes the bytes.
+static bool FeedThroughPipe(const char *path) {
+  int fds[2];
+  if (pipe(fds)) return false;
+  pid_t feeder = fork();
+  if (feeder < 0) return false;
+  if (feeder == 0) {
+    close(fds[0]); close(1); close(2);
+    signal(SIGPIPE, SIG_DFL);
+    int in = open(path, O_RDONLY);
+    char buf[65536]; ssize_t n;
+    while (in >= 0 && (n = read(in, buf, sizeof(buf))) > 0) {
+      ssize_t off = 0;
+      while (off < n) { ssize_t w = write(fds[1], buf + off, n - off); if (w <= 0) _exit(0); off += w; }
+    }
+    _exit(0);
+  }
+  close(fds[1]);
+  dup2(fds[0], 0);
+  close(fds[0]);
+  return true;
+}
+
 static int Child(const std::vector<std::string> &f) {
   const std::string &type = f[0];
-  const char *path = f[1].c_str();
+  bool through_pipe = false;
+  for (size_t i = 4; i < f.size(); ++i) if (f[i] == "pipe") through_pipe = true;
+  if (through_pipe && !FeedThroughPipe(f[1].c_str())) { std::printf("EXIT cannot-set-up-pipe\n"); return 0; }
+  const char *path = through_pipe ? "/dev/stdin" : f[1].c_str();
   uint64_t seed = std::strtoull(f[2].c_str(), 0, 16);
   Config config;
   config.messages = NULL;
